@@ -6,10 +6,10 @@ from .codec import src
 from .terms import E, build, show
 
 
-def verdict(schema, v):
+def verdict(schema, v, **options):
     """True (clean) / False (errors) / 'raises:<Exc>' - never raises."""
     try:
-        return not validate(schema, v).has_errors()
+        return not validate(schema, v, **options).has_errors()
     except Exception as e:  # noqa: BLE001
         return "raises:" + type(e).__name__
 
